@@ -82,6 +82,16 @@ pub fn eval_numeric_function<'a>(name: &str, args: &[Option<Value<'a>>]) -> Opti
     }
 }
 
+/// An integral float as `Value::Int` when it fits the 64-bit range, else unchanged as
+/// `Value::Float` (an `as i64` cast would clamp it to `i64::MAX` / `i64::MIN`).
+fn integral_value<'a>(f: f64) -> Value<'a> {
+    if f >= -9_223_372_036_854_775_808.0 && f < 9_223_372_036_854_775_808.0 {
+        Value::Int(f as i64)
+    } else {
+        Value::Float(f)
+    }
+}
+
 fn get_float(val: &Option<Value>) -> Option<f64> {
     match val.as_ref()? {
         Value::Float(f) => Some(*f),
@@ -157,7 +167,7 @@ fn eval_div<'a>(args: &[Option<Value<'a>>]) -> Option<Value<'a>> {
 
 fn eval_ceil<'a>(args: &[Option<Value<'a>>]) -> Option<Value<'a>> {
     match args.first()?.as_ref()? {
-        Value::Float(f) => Some(Value::Int(f.ceil() as i64)),
+        Value::Float(f) => Some(integral_value(f.ceil())),
         Value::Int(n) => Some(Value::Int(*n)),
         Value::Null => Some(Value::Null),
         _ => None,
@@ -166,7 +176,7 @@ fn eval_ceil<'a>(args: &[Option<Value<'a>>]) -> Option<Value<'a>> {
 
 fn eval_floor<'a>(args: &[Option<Value<'a>>]) -> Option<Value<'a>> {
     match args.first()?.as_ref()? {
-        Value::Float(f) => Some(Value::Int(f.floor() as i64)),
+        Value::Float(f) => Some(integral_value(f.floor())),
         Value::Int(n) => Some(Value::Int(*n)),
         Value::Null => Some(Value::Null),
         _ => None,
@@ -181,7 +191,7 @@ fn eval_round<'a>(args: &[Option<Value<'a>>]) -> Option<Value<'a>> {
     let rounded = (val * multiplier).round() / multiplier;
 
     if decimals <= 0 {
-        Some(Value::Int(rounded as i64))
+        Some(integral_value(rounded))
     } else {
         Some(Value::Float(rounded))
     }
@@ -195,7 +205,7 @@ fn eval_truncate<'a>(args: &[Option<Value<'a>>]) -> Option<Value<'a>> {
     let truncated = (val * multiplier).trunc() / multiplier;
 
     if decimals <= 0 {
-        Some(Value::Int(truncated as i64))
+        Some(integral_value(truncated))
     } else {
         Some(Value::Float(truncated))
     }
